@@ -31,7 +31,8 @@ VARIABLES
 vars == <<cfg, sub, queue, wg, wk, closed, main, runs, fin, h>>
 
 NW      == IF cfg.W <= 0 THEN 1 ELSE cfg.W       \* NewWorkerPool: <= 0 means 1
-Cap     == 2 * NW
+\* queue capacity: 2 * workers (flyt.go:959); a recorded scenario carries the capacity read off the real pool
+Cap     == IF "qcap" \in DOMAIN cfg /\ cfg.qcap >= 1 THEN cfg.qcap ELSE 2 * NW
 Workers == 1..NW
 Subs    == 1..cfg.S
 \* task ids: round r, submitter s, j-th task  ->  1000000*r + 10000*s + j
